@@ -21,7 +21,6 @@ from harness.props import _misc as M
 from harness.props import c04_oracle as G
 
 ID = "C07"
-INCLUDE_NON_UTF8_FILE = False
 ALARM = 10
 RULE = ("exhaustive: the short-string enumerations of C04 (every tag datatype, every kind of positional field) and every "
         "single-point mutation of 25 valid lines and 3 valid documents, each at levels 0-3 and with version None/gfa1/gfa2 "
@@ -72,6 +71,57 @@ API_DOCS = [
 ]
 API_CALLS = ["line", "segment", "rm", "try_get_line", "try_get_segment", "set", "get", "delete", "field_to_s", "validate_line",
              "str", "validate", "add_line"]
+
+# identifiers which look like numbers to str.isdigit() / int() without being small ASCII decimals, and neighbours
+ODD_NAMES = ["1" * 5000, "9" * 4301, "9" * 4300, "0" * 6000, "1" * 100, "²", "¹²", "1²", "٣", "١٢٣",
+             "１２", "①", "⅕", "१२", "三", "-1", "+1", "1_0", "1.0", "1e3", "0x10", "00", "٣a"]
+# {n}: the identifier under test; every position of a document in which an identifier is written
+ODD_TEMPLATES = [
+    ("gfa1", ["S\t{n}\t*"]),
+    ("gfa1", ["S\t{n}\t*", "S\tB\t*", "L\t{n}\t+\tB\t-\t*", "P\tp\t{n}+,B-\t*"]),
+    ("gfa1", ["S\tB\t*", "L\tB\t+\t{n}\t-\t*"]),
+    ("gfa1", ["S\tA\t*", "S\tB\t*", "L\tA\t+\tB\t-\t*\tID:Z:{n}"]),
+    ("gfa1", ["S\tA\t*", "S\tB\t*", "C\tA\t+\tB\t-\t0\t*\tID:Z:{n}"]),
+    ("gfa1", ["C\t{n}\t+\tB\t-\t0\t*"]),
+    ("gfa1", ["S\tA\t*", "S\tB\t*", "P\t{n}\tA+,B-\t*"]),
+    ("gfa1", ["P\tp\tA+,{n}-\t*"]),
+    ("gfa1", ["S\t7\t*", "S\t{n}\t*", "S\t8\t*"]),
+    ("gfa2", ["S\t{n}\t4\t*"]),
+    ("gfa2", ["S\tA\t4\t*", "S\tB\t4\t*", "E\t{n}\tA+\tB-\t0\t1\t0\t1\t*"]),
+    ("gfa2", ["S\tB\t4\t*", "E\te\t{n}+\tB-\t0\t1\t0\t1\t*"]),
+    ("gfa2", ["F\t{n}\tr+\t0\t1\t0\t1\t*"]),
+    ("gfa2", ["S\tA\t4\t*", "F\tA\t{n}+\t0\t1\t0\t1\t*"]),
+    ("gfa2", ["S\tA\t4\t*", "S\tB\t4\t*", "G\t{n}\tA+\tB-\t1\t*"]),
+    ("gfa2", ["G\tg\t{n}+\tB-\t1\t*"]),
+    ("gfa2", ["S\tA\t4\t*", "O\t{n}\tA+"]),
+    ("gfa2", ["S\tA\t4\t*", "O\to\tA+ {n}+"]),
+    ("gfa2", ["S\tA\t4\t*", "U\t{n}\tA"]),
+    ("gfa2", ["S\tA\t4\t*", "U\tu\tA {n}", "U\tv\t{n} u"]),
+    ("gfa2", ["X\t{n}\txx:i:1", "S\t{n}\t4\t*"]),
+]
+
+# lines which depend on the segment s1 (GFA1 / GFA2); {id}: the dependant's own identifier ("" = it has none)
+DEPS1 = {
+    "Ldove": "L\ts1\t+\ts2\t+\t*{idtag}", "Lrev": "L\ts2\t-\ts1\t-\t*{idtag}", "Lhair": "L\ts1\t+\ts1\t-\t*{idtag}",
+    "Lhair2": "L\ts1\t-\ts1\t+\t*{idtag}", "Lself": "L\ts1\t+\ts1\t+\t*{idtag}", "C12": "C\ts1\t+\ts2\t+\t0\t*{idtag}",
+    "C21": "C\ts2\t+\ts1\t-\t0\t*{idtag}", "Cself": "C\ts1\t+\ts1\t-\t0\t*{idtag}", "P1": "P\t{id}\ts1+\t*",
+    "P11": "P\t{id}\ts1+,s1-\t*", "P12": "P\t{id}\ts1+,s2+\t*", "P21": "P\t{id}\ts2-,s1-\t*",
+}
+DEPS2 = {
+    "Edove": "E\t{id}\ts1+\ts2+\t6\t10$\t0\t4\t*", "Ehair": "E\t{id}\ts1+\ts1-\t6\t10$\t6\t10$\t*",
+    "Eself": "E\t{id}\ts1+\ts1+\t6\t10$\t0\t4\t*", "Eint": "E\t{id}\ts2-\ts1+\t2\t5\t3\t6\t*",
+    "F": "F\ts1\tr+\t0\t10$\t0\t10\t*", "G": "G\t{id}\ts1+\ts2-\t5\t*", "Gself": "G\t{id}\ts1-\ts1+\t5\t*",
+    "U1": "U\t{id}\ts1", "U12": "U\t{id}\ts1 s2", "U11": "U\t{id}\ts1 s1", "O1": "O\t{id}\ts1+", "O11": "O\t{id}\ts1+ s1-",
+}
+# second-level dependants: lines which mention the first dependant ({d}) and possibly s1 again
+DEPS2_OVER = {
+    "U(d)": "U\t{id}\t{d}", "U(s1,d)": "U\t{id}\ts1 {d}", "U(d,s1)": "U\t{id}\t{d} s1", "U(s1,d,s2)": "U\t{id}\ts1 {d} s2",
+    "O(d)": "O\t{id}\t{d}+", "O(s1,d)": "O\t{id}\ts1+ {d}+", "O(d,s1)": "O\t{id}\t{d}- s1+",
+}
+
+RAW_BYTES = ["80", "ff", "c3", "c328", "e282", "eda080", "f8888080", "fffe", "feff", "c0af", "e9"]
+RAW_WHERE = ["start", "comment", "name", "tag", "newline", "end", "far", "chunk"]
+RAW_ENCODINGS = ["enc:utf-16", "enc:utf-16-le", "enc:utf-32", "enc:latin-1", "enc:cp1252", "enc:utf-8-sig"]
 
 
 # ---------------------------------------------------------------------------------------------------- plan
@@ -126,8 +176,23 @@ def _plan(tier):
         for v in (0, 1, 2, 3):
             for call in API_CALLS:
                 plan.append({"kind": "apix", "doc": d, "vlevel": v, "call": call})
-    if INCLUDE_NON_UTF8_FILE:
-        plan.append({"kind": "rawfile", "hex": "5309410aff0a", "vlevel": 1})
+    for t in range(len(ODD_TEMPLATES)):
+        for v in (0, 1, 2, 3):
+            plan.append({"kind": "oddname", "tpl": t, "vlevel": v})
+    for ver, tab in (("gfa1", DEPS1), ("gfa2", DEPS2)):
+        for first in sorted(tab):
+            for v in (0, 1, 2, 3):
+                plan.append({"kind": "deps", "version": ver, "first": first, "vlevel": v})
+    for nseg in (1, 2, 3, 4, 5):
+        for v in (0, 1, 2, 3):
+            plan.append({"kind": "plist", "nseg": nseg, "vlevel": v})
+    for ver, dep in APISEQ_DOCS:
+        for v in (0, 1, 2, 3):
+            plan.append({"kind": "apiseq", "version": ver, "dep": dep, "vlevel": v})
+    for d in range(len(G.BASE_DOCS)):
+        for where in RAW_WHERE + RAW_ENCODINGS:
+            for v in (0, 1, 2, 3):
+                plan.append({"kind": "rawx", "doc": d, "where": where, "vlevel": v})
     return plan
 
 
@@ -161,42 +226,249 @@ def rnd_string(rng, n):
     return "".join(rng.pick(alpha) for _ in range(n))
 
 
+def subst_name(text, old, new):
+    """the text with the identifier `old` replaced by `new` wherever it is written as a whole field, as an
+    oriented reference or as an element of a list field"""
+    out = []
+    for ln in text.split("\n"):
+        f = ln.split("\t")
+        for j in range(1, len(f)):
+            for sep in (",", " "):
+                els = f[j].split(sep)
+                els = [new + e[len(old):] if (e == old or (e[:len(old)] == old and e[len(old):] in ("+", "-"))) else e for e in els]
+                f[j] = sep.join(els)
+        out.append("\t".join(f))
+    return "\n".join(out)
+
+
+def _inv(o):
+    return "-" if o == "+" else "+"
+
+
+def rnd_path_overlaps(rng, n):
+    """an overlaps field for a path of n segments: `*`, the number a linear / a circular path needs, or any other number"""
+    k = rng.random()
+    cnt = None
+    if k < 0.4:
+        return "*"
+    if k < 0.6:
+        cnt = n - 1
+    elif k < 0.7:
+        cnt = n
+    else:
+        cnt = rng.pick([0, 1, 2, 3, n + 1, n + 2, 2 * n])
+    if cnt <= 0:
+        return rng.pick(["*", "", ","])
+    one = rng.pick([["2M"], ["*"], ["2M", "*"], ["2M", "1M1I", "0M"]])
+    return ",".join(rng.pick(one) for _ in range(cnt))
+
+
+def rnd_graph(rng, ver):
+    """-> (lines, names): a small graph whose lines depend on each other in many ways: several links on one segment end,
+    hairpin and self links, containments, paths over links (with any number of overlaps), fragments, gaps, groups of
+    groups which share members, forward references, references to undefined lines.  NOT necessarily valid."""
+    segs = rng.sample(["A", "B", "C", "1", "s2"], rng.pick([1, 2, 2, 3, 3, 4]))
+    ref = lambda: "Z" if rng.chance(0.06) else rng.pick(segs)
+    o = lambda: rng.pick("+-")
+    L = []
+    names = list(segs)
+    if ver == "gfa1":
+        if rng.chance(0.3):
+            L.append("H\tVN:Z:1.0")
+        for x in segs:
+            L.append("S\t%s\t%s" % (x, rng.pick(["*", "*", "ACGTACGT"])))
+        links = []
+        for j in range(rng.pick([0, 1, 2, 2, 3, 4])):
+            a = ref(); b = a if rng.chance(0.3) else ref()
+            l = (a, o(), b, o())
+            links.append(l)
+            t = "L\t%s\t%s\t%s\t%s\t%s" % (l + (rng.pick(["*", "*", "2M"]),))
+            if rng.chance(0.5):
+                t += "\tID:Z:l%d" % j; names.append("l%d" % j)
+            L.append(t)
+        for j in range(rng.pick([0, 0, 1, 2])):
+            a = ref(); b = a if rng.chance(0.15) else ref()
+            t = "C\t%s\t%s\t%s\t%s\t%s\t%s" % (a, o(), b, o(), rng.pick(["0", "1"]), rng.pick(["*", "2M"]))
+            if rng.chance(0.5):
+                t += "\tID:Z:c%d" % j; names.append("c%d" % j)
+            L.append(t)
+        for j in range(rng.pick([0, 0, 1, 1, 2])):
+            if links and rng.chance(0.7):
+                l = rng.pick(links)
+                steps = [l[0] + l[1], l[2] + l[3]]
+                for _ in range(rng.pick([0, 0, 1, 2])):
+                    cands = [m for m in links if m[0] + m[1] == steps[-1]]
+                    if not cands:
+                        break
+                    m = rng.pick(cands); steps.append(m[2] + m[3])
+                if rng.chance(0.3):
+                    steps = [x[:-1] + _inv(x[-1]) for x in reversed(steps)]
+            else:
+                steps = [ref() + o() for _ in range(rng.pick([1, 2, 3]))]
+            L.append("P\tp%d\t%s\t%s" % (j, ",".join(steps), rnd_path_overlaps(rng, len(steps))))
+            names.append("p%d" % j)
+        if rng.chance(0.1):
+            L.append("# c")
+    else:
+        if rng.chance(0.3):
+            L.append("H\tVN:Z:2.0")
+        for x in segs:
+            L.append("S\t%s\t10\t*" % x)
+        eids = []
+        for j in range(rng.pick([0, 1, 2, 2, 3])):
+            a = ref(); b = a if rng.chance(0.3) else ref()
+            c = rng.pick([("6", "10$", "0", "4"), ("0", "4", "6", "10$"), ("2", "5", "3", "6"), ("0", "10$", "2", "8"),
+                          ("6", "10$", "6", "10$"), ("0", "4", "0", "4")])
+            eid = "e%d" % j if rng.chance(0.75) else "*"
+            if eid != "*":
+                eids.append(eid)
+            L.append("E\t%s\t%s%s\t%s%s\t%s\t%s\t%s\t%s\t%s" % ((eid, a, o(), b, o()) + c + (rng.pick(["*", "*", "4M"]),)))
+        for j in range(rng.pick([0, 0, 1, 2])):
+            L.append("F\t%s\tr%d%s\t0\t10$\t0\t10\t*" % (ref(), rng.pick([1, 1, 2]), o()))
+        gids = []
+        for j in range(rng.pick([0, 0, 1, 2])):
+            gid = "g%d" % j if rng.chance(0.75) else "*"
+            if gid != "*":
+                gids.append(gid)
+            a = ref(); b = a if rng.chance(0.2) else ref()
+            L.append("G\t%s\t%s%s\t%s%s\t%s\t%s" % (gid, a, o(), b, o(), rng.pick(["5", "-3"]), rng.pick(["*", "2"])))
+        kinds = [rng.pick("OU") for _ in range(rng.pick([0, 1, 2, 2, 3, 4]))]
+        grp = ["%s%d" % (k.lower(), j) for j, k in enumerate(kinds)]
+        for j, k in enumerate(kinds):
+            pool = segs + segs + eids + [x for x in grp if x != grp[j] and (k == "U" or x[0] == "o" or rng.chance(0.2))]
+            if k == "U":
+                pool = pool + gids
+            items = [("zz" if rng.chance(0.04) else rng.pick(pool)) for _ in range(rng.pick([1, 2, 2, 3]))]
+            if k == "O":
+                items = [x + o() for x in items]
+            L.append("%s\t%s\t%s" % (k, "*" if rng.chance(0.12) else grp[j], " ".join(items)))
+        names += eids + gids + grp
+    if rng.chance(0.4):
+        rng.shuffle(L)
+    return L, names
+
+
+GRAPH_OPS = [("rm_name", 20), ("rm_line", 10), ("disconnect", 10), ("connect", 5), ("set", 14), ("unset", 5), ("delete", 8),
+             ("rename", 9), ("get", 3), ("validate", 3), ("str", 2), ("gstr", 2), ("gvalidate", 3), ("add", 4), ("lookup", 2)]
+
+
+def rnd_api_value(rng, names):
+    k = rng.random()
+    if k < 0.35:
+        return rng.pick(names) + rng.pick(["", "+", "-"])
+    if k < 0.5:
+        return rng.pick([",", " "]).join(rng.pick(names) + rng.pick(["", "+", "-"]) for _ in range(rng.pick([2, 3])))
+    if k < 0.6:
+        return rng.pick(ODD_NAMES)
+    return rng.pick(VALUE_POOL)
+
+
+def rnd_fsel(rng):
+    """which field of a line: by position in (positional field names + tag names), or by a name from the pool"""
+    return ["i", rng.randrange(12)] if rng.chance(0.75) else ["s", rng.pick(FIELD_POOL)]
+
+
+def rnd_graph_steps(rng, lines, names, ver):
+    tot = sum(w for _o, w in GRAPH_OPS)
+    steps = []
+    for _ in range(rng.pick([1, 2, 3, 4, 6])):
+        x = rng.randrange(tot)
+        for op, w in GRAPH_OPS:
+            x -= w
+            if x < 0:
+                break
+        li = rng.randrange(16)
+        if op == "rm_name" or op == "lookup":
+            steps.append([op, rng.pick(names) if rng.chance(0.85) else rng.pick(ID_POOL + ODD_NAMES)])
+        elif op in ("rm_line", "disconnect", "connect", "validate", "str"):
+            steps.append([op, li])
+        elif op == "set":
+            steps.append([op, li, rnd_fsel(rng), rnd_api_value(rng, names)])
+        elif op in ("unset", "delete", "get"):
+            steps.append([op, li, rnd_fsel(rng)])
+        elif op == "rename":
+            steps.append([op, li, rng.pick(names + ["n1", "n2", "*", "", "a b", "x+", "A,B", "7"] + ODD_NAMES[:8])])
+        elif op == "add":
+            steps.append([op, rng.pick(lines) if lines and rng.chance(0.6) else G.rnd_line(rng, ver)])
+        else:
+            steps.append([op])
+    return steps
+
+
+def rnd_raw(rng):
+    """bytes of a small document, damaged so that they are (most of the time) not UTF-8"""
+    ver0 = rng.pick(["gfa1", "gfa2"])
+    L = G.rnd_doc(rng, ver0)
+    if rng.chance(0.3):
+        L.insert(rng.randrange(len(L) + 1), "# " + rng.pick(["é", "€", " ", "x" * 9000, "é" * 5000]))
+    b = bytearray("\n".join(L).encode("utf-8"))
+    if rng.chance(0.5):
+        b += b"\n"
+    for _ in range(rng.pick([1, 1, 2, 3])):
+        ins = bytes.fromhex(rng.pick(RAW_BYTES)) if rng.chance(0.7) else bytes([rng.randrange(128, 256) for _ in range(rng.pick([1, 2, 3]))])
+        at = rng.pick([0, len(b), rng.randrange(len(b) + 1), rng.randrange(len(b) + 1)])
+        if rng.chance(0.5):
+            b[at:at] = ins
+        else:
+            b[at:at + len(ins)] = ins
+    if rng.chance(0.1):
+        b = b[:rng.randrange(len(b) + 1)]
+    return bytes(b)
+
+
 def gen_case(rng, tier, i):
     k = rng.random()
     v = rng.pick([0, 1, 2, 3])
     ver = rng.pick(VERSIONS)
-    if k < 0.2:
+    if k < 0.15:
         s = rnd_string(rng, rng.pick([0, 1, 2, 3, 5, 8, 13, 30]))
         if rng.chance(0.6):
             s = rng.pick(["S\t", "L\t", "C\t", "P\t", "E\t", "F\t", "G\t", "O\t", "U\t", "H\t", "#", "X\t", "S\tA\t*\txx:%s:" % rng.pick("AifZJHB")]) + s
         return {"kind": "line", "text": s, "vlevel": v, "version": ver}
-    if k < 0.45:
+    if k < 0.33:
         ver0 = rng.pick(["gfa1", "gfa2"])
         s = G.rnd_line(rng, ver0)
+        if rng.chance(0.15):
+            s = subst_name(s, rng.pick(G.NAMES), rng.pick(ODD_NAMES))
         for _ in range(rng.pick([1, 2, 3])):
             s, _d = G.mutate(rng, s)
         return {"kind": "line", "text": s, "vlevel": v, "version": rng.pick([None, ver0, ver0, "gfa1", "gfa2"])}
-    if k < 0.75:
+    if k < 0.58:
         ver0 = rng.pick(["gfa1", "gfa2"])
         L = G.rnd_doc(rng, ver0)
         if rng.chance(0.3):
             L.insert(rng.randrange(len(L) + 1), rng.pick(SPECIAL_LINES))
+        if ver0 == "gfa1" and rng.chance(0.25):
+            # a path with any number of segments and any number of overlaps
+            n = rng.pick([1, 2, 3, 3, 4, 6])
+            L.insert(rng.randrange(len(L) + 1), "P\tq\t%s\t%s" % (",".join(rng.pick(["A", "B", "C", "1", "Z"]) + rng.pick("+-") for _ in range(n)),
+                                                                  rnd_path_overlaps(rng, n)))
         text = "\n".join(L)
+        if rng.chance(0.12):
+            text = subst_name(text, rng.pick(["A", "B", "C", "1", "e1", "p1", "o1", "u1", "g1"]), rng.pick(ODD_NAMES))
         for _ in range(rng.pick([0, 1, 2, 3])):
             text, _d = G.mutate(rng, text)
         if rng.chance(0.2):
             text += rng.pick(["\n", "\n\n", "\r\n", " "])
         return {"kind": "doc", "text": text, "vlevel": v, "version": rng.pick([None, None, ver0, "gfa1", "gfa2"]),
                 "dialect": rng.pick(["standard", "standard", "rgfa"]), "how": rng.pick(["text", "list", "add", "file"])}
-    # API script
+    if k < 0.63:
+        return {"kind": "rawfile", "hex": rnd_raw(rng).hex(), "vlevel": v, "version": rng.pick([None, None, "gfa1", "gfa2"])}
+    if k < 0.88:
+        # API script on the lines of a small graph
+        ver0 = rng.pick(["gfa1", "gfa2"])
+        L, names = rnd_graph(rng, ver0)
+        return {"kind": "graph", "lines": L, "vlevel": v, "version": rng.pick([None, ver0, ver0]), "how": rng.pick(["list", "add", "add"]),
+                "steps": rnd_graph_steps(rng, L, names, ver0)}
+    # API script on a fixed document
     d = rng.randrange(len(API_DOCS))
     steps = []
     for _ in range(rng.pick([1, 2, 3, 5])):
         call = rng.pick(API_CALLS)
         if call in ("line", "segment", "rm", "try_get_line", "try_get_segment"):
-            steps.append([call, rng.pick(ID_POOL)])
+            steps.append([call, rng.pick(ID_POOL) if rng.chance(0.9) else rng.pick(ODD_NAMES)])
         elif call == "set":
-            steps.append([call, rng.randrange(12), rng.pick(FIELD_POOL), rng.pick(VALUE_POOL)])
+            steps.append([call, rng.randrange(12), rng.pick(FIELD_POOL), rng.pick(VALUE_POOL) if rng.chance(0.9) else rng.pick(ODD_NAMES)])
         elif call in ("get", "delete", "field_to_s"):
             steps.append([call, rng.randrange(12), rng.pick(FIELD_POOL)])
         elif call == "validate_line":
@@ -274,15 +546,7 @@ def probe_doc(P, text, vlevel, version, dialect, how):
         try:
             with os.fdopen(fd, "w", encoding="utf-8", errors="surrogatepass", newline="") as f:
                 f.write(text)
-            try:
-                open(path, encoding=None).read()
-                readable = True
-            except Exception:
-                readable = False          # not text in the platform's encoding: NOT CHECKED
-            if readable:
-                st, g = P.call("Gfa.from_file(%s)" % ctx, text, gfapy.Gfa.from_file, path, vlevel=vlevel, version=version, dialect=dialect)
-            else:
-                st = "skip"
+            st, g = P.call("Gfa.from_file(%s)" % ctx, text, gfapy.Gfa.from_file, path, vlevel=vlevel, version=version, dialect=dialect)
         finally:
             try:
                 os.unlink(path)
@@ -354,6 +618,372 @@ def probe_deep(P, shape, depth, vlevel):
             P.call("induced_set of the outermost group (%s)" % ctx, shown, lambda: l.induced_set)
     P.call("Gfa.rm('A') (%s)" % ctx, shown, g.rm, "A")
     P.call("str(Gfa) after rm (%s)" % ctx, shown, str, g)
+
+
+def probe_raw(P, data, vlevel, version, shown=None):
+    """a file with the bytes `data` (any bytes: not necessarily text in any encoding) given to Gfa.from_file"""
+    gfapy = lib.import_gfapy()
+    shown = shown if shown is not None else data
+    ctx = "vlevel=%d version=%s" % (vlevel, version)
+    fd, path = tempfile.mkstemp(prefix="c07_", suffix=".gfa", dir="/tmp")
+    try:
+        with os.fdopen(fd, "wb") as f:
+            f.write(data)
+        st, g = P.call("Gfa.from_file(bytes, %s)" % ctx, shown, gfapy.Gfa.from_file, path, vlevel=vlevel, version=version)
+    finally:
+        try:
+            os.unlink(path)
+        except OSError:
+            pass
+    if st == "ok" and g is not None:
+        P.call("str(Gfa) (bytes file, %s)" % ctx, shown, str, g)
+        P.call("Gfa.validate() (bytes file, %s)" % ctx, shown, g.validate)
+
+
+def raw_variants(d, where):
+    """-> iterator of (description, bytes): the document BASE_DOCS[d] with bytes that are not UTF-8 at the place `where`,
+    or written in another encoding"""
+    lines = list(G.BASE_DOCS[d][2])
+    if where.startswith("enc:"):
+        text = "\n".join(lines + ["# café €", "S\tXé\t*" if G.BASE_DOCS[d][0] == "gfa1" else "S\tXé\t1\t*"]) + "\n"
+        yield where, text.encode(where[4:], errors="replace")
+        return
+    pre = b""
+    if where == "far":
+        pre = b"# pad\n" * 120
+    elif where == "chunk":
+        pre = b"#" + b"x" * 8185 + b"\n"          # the document starts a few bytes before the 8192-byte boundary
+    body = "\n".join(lines + ["# last"]).encode("utf-8") + b"\n"
+    first_s = body.index(b"S\t") + 2
+    tagpos = body.index(b":Z:") + 3 if b":Z:" in body else body.index(b":i:") + 3
+    at = {"start": 0, "comment": len(body) - 2, "name": first_s, "tag": tagpos, "newline": body.index(b"\n"),
+          "end": len(body), "far": first_s, "chunk": first_s}[where]
+    for hx in RAW_BYTES:
+        ins = bytes.fromhex(hx)
+        yield "%s:insert %s" % (where, hx), pre + body[:at] + ins + body[at:]
+        yield "%s:replace %s" % (where, hx), pre + body[:at] + ins + body[at + len(ins):]
+
+
+def probe_rawx(P, d, where, vlevel):
+    ver = G.BASE_DOCS[d][0]
+    for desc, data in raw_variants(d, where):
+        probe_raw(P, data, vlevel, ver, "doc %d %s" % (d, desc))
+        if vlevel == 1:
+            probe_raw(P, data, vlevel, None, "doc %d %s" % (d, desc))
+
+
+def probe_oddname(P, t, vlevel):
+    """every identifier of ODD_NAMES in the identifier position(s) of template t: parsed, looked up, removed, and
+    given to an existing line as its new name"""
+    gfapy = lib.import_gfapy()
+    ver, tpl = ODD_TEMPLATES[t]
+    for n in ODD_NAMES:
+        lines = [x.replace("{n}", n) for x in tpl]
+        text = "\n".join(lines)
+        shown = [x.replace("{n}", "{%s}" % short(n)) for x in tpl]
+        ctx = "vlevel=%d %s" % (vlevel, ver)
+        for x in lines:
+            if x not in tpl:
+                probe_line(P, x, vlevel, ver)
+        probe_doc(P, text, vlevel, ver, "standard", "text")
+        probe_doc(P, text, vlevel, None, "standard", "add")
+        st, g = P.call("Gfa(list, %s)" % ctx, shown, gfapy.Gfa, lines, vlevel=vlevel, version=ver)
+        if st == "ok":
+            for call in ("line", "try_get_line", "segment", "try_get_segment", "rm"):
+                P.call("Gfa.%s(%s) (%s)" % (call, short(n)[:30], ctx), shown, getattr(g, call), n)
+            P.call("str(Gfa) after rm (%s)" % ctx, shown, str, g)
+            P.call("Gfa.validate() after rm (%s)" % ctx, shown, g.validate)
+        # rename: the same document with an ordinary name, then <line>.name = n
+        st, g = P.call("Gfa(list, %s)" % ctx, tpl, gfapy.Gfa, [x.replace("{n}", "q7") for x in tpl], vlevel=vlevel, version=ver)
+        if st != "ok":
+            continue
+        st, l = P.call("Gfa.line('q7') (%s)" % ctx, tpl, g.line, "q7")
+        if st == "ok" and l is not None:
+            P.call("line.name = %s (%s)" % (short(n)[:30], ctx), shown, setattr, l, "name", n)
+            P.call("str(Gfa) after rename (%s)" % ctx, shown, str, g)
+            P.call("Gfa.line(new name) (%s)" % ctx, shown, g.line, n)
+            P.call("Gfa.validate() after rename (%s)" % ctx, shown, g.validate)
+            P.call("Gfa.rm(new name) (%s)" % ctx, shown, g.rm, n)
+            P.call("str(Gfa) after rename and rm (%s)" % ctx, shown, str, g)
+
+
+def deps_docs(ver, first):
+    """-> iterator of (lines, names): s1, s2, the dependant `first` of s1 and every second line which depends on s1
+    and/or on the first dependant"""
+    tab = DEPS1 if ver == "gfa1" else DEPS2
+    base = ["S\ts1\t*", "S\ts2\t*"] if ver == "gfa1" else ["S\ts1\t10\t*", "S\ts2\t10\t*"]
+
+    def inst(tpl, ident, d=None):
+        return tpl.format(id=ident, idtag=("\tID:Z:%s" % ident if ident else ""), d=d)
+    t1 = tab[first]
+    if "{idtag}" in t1:
+        idents = ["d1", ""]
+    elif "{id}" in t1 and ver == "gfa2":
+        idents = ["d1", "*"]
+    elif "{id}" in t1:
+        idents = ["d1"]
+    else:
+        idents = [""]
+    for i1 in idents:
+        l1 = inst(t1, i1)
+        for second in sorted(tab):
+            i2 = "d2" if i1 == "d1" or "{idtag}" not in tab[second] else ""
+            yield base + [l1, inst(tab[second], i2)], ["s1", "s2", "d1", "d2"]
+        if ver == "gfa2" and i1 == "d1":
+            for second in sorted(DEPS2_OVER):
+                if second.startswith("O") and first[0] not in "EO":
+                    continue
+                yield base + [l1, inst(DEPS2_OVER[second], "d2", "d1")], ["s1", "s2", "d1", "d2"]
+                # and in the other order in the file (forward reference)
+                yield base + [inst(DEPS2_OVER[second], "d2", "d1"), l1], ["s1", "s2", "d1", "d2"]
+
+
+def probe_deps(P, ver, first, vlevel):
+    """a line with two dependants, every combination: each of the lines is removed by name, by line object and
+    disconnected, each time from a freshly built graph"""
+    gfapy = lib.import_gfapy()
+    ctx = "vlevel=%d %s" % (vlevel, ver)
+    for lines, names in deps_docs(ver, first):
+        nl = len(lines)
+        if vlevel == 1:
+            modes = (("rm(name)", names), ("rm(line)", range(2, nl)), ("disconnect", range(1, nl)))
+        elif vlevel == 0:
+            modes = (("rm(name)", ["s1", "d1"]), ("disconnect", range(3, nl)))
+        else:
+            modes = (("rm(name)", ["s1"]),)
+        for mode, targets in modes:
+            for t in targets:
+                st, g = P.call("Gfa(list, %s)" % ctx, lines, gfapy.Gfa, list(lines), vlevel=vlevel, version=ver)
+                if st != "ok":
+                    break
+                if mode == "rm(name)":
+                    P.call("Gfa.rm(%r) (%s)" % (t, ctx), lines, g.rm, t)
+                else:
+                    st, ls = P.call("Gfa.lines", lines, lambda: list(g.lines))
+                    if st != "ok":
+                        break
+                    # the line objects in the order of the text
+                    st, bytext = P.call("str(line)", lines, lambda: dict((str(l), l) for l in ls))
+                    if st != "ok":
+                        break
+                    byt = [bytext[x] for x in lines if x in bytext]
+                    if t >= len(byt):
+                        continue
+                    l = byt[t]
+                    if mode == "rm(line)":
+                        P.call("Gfa.rm(%s-line) (%s)" % (l.record_type, ctx), lines, g.rm, l)
+                    else:
+                        P.call("%s-line.disconnect() (%s)" % (l.record_type, ctx), lines, l.disconnect)
+                P.call("str(Gfa) after %s (%s)" % (mode, ctx), lines, str, g)
+                P.call("Gfa.validate() after %s (%s)" % (mode, ctx), lines, g.validate)
+
+
+def probe_plist(P, nseg, vlevel):
+    """GFA1 paths of nseg segments with every number of overlaps from none to nseg+2, over defined / undefined
+    segments and links"""
+    segs = ["a", "b", "c", "d", "e"][:nseg]
+    names = ",".join(x + "+" for x in segs)
+    S = ["S\t%s\t*" % x for x in segs]
+    for novl in range(0, nseg + 3):
+        for one in ("1M", "*"):
+            if novl == 0:
+                ovs = ["*", ""] if one == "*" else [","]
+            else:
+                ovs = [",".join([one] * novl)]
+            for ov in ovs:
+                pl = "P\tp\t%s\t%s" % (names, ov)
+                probe_line(P, pl, vlevel, "gfa1")
+                for lk in (None, "1M", "*"):
+                    Lk = [] if lk is None else ["L\t%s\t+\t%s\t+\t%s" % (segs[i], segs[i + 1], lk) for i in range(nseg - 1)]
+                    if lk is None:
+                        docs = [[pl], S + [pl], [pl] + S]
+                    else:
+                        docs = [S + Lk + [pl]] + ([[pl] + Lk + S] if lk == "1M" else [])
+                    if lk is not None and nseg > 1:
+                        docs.append(S + Lk + ["L\t%s\t+\t%s\t+\t%s" % (segs[-1], segs[0], lk), pl])
+                    for doc in docs:
+                        probe_doc(P, "\n".join(doc), vlevel, "gfa1", "standard", "text")
+                        if lk != "*" and one == "1M":
+                            probe_doc(P, "\n".join(doc), vlevel, None, "standard", "add")
+
+
+APISEQ_DOCS = [("gfa1", "Ldove"), ("gfa1", "Lhair"), ("gfa1", "C12"), ("gfa1", "P12"),
+               ("gfa2", "Edove"), ("gfa2", "Ehair"), ("gfa2", "F"), ("gfa2", "G"), ("gfa2", "U12"), ("gfa2", "O1")]
+APISEQ_VALUES = ["zz", "s2+", "1", "*", "s2", "d1", "", "2M"]
+
+
+def apiseq_doc(ver, dep):
+    base = ["S\ts1\t*\txx:i:1", "S\ts2\t*"] if ver == "gfa1" else ["S\ts1\t10\t*\txx:i:1", "S\ts2\t10\t*"]
+    tab = DEPS1 if ver == "gfa1" else DEPS2
+    return base + [tab[dep].format(id="d1", idtag="\tID:Z:d1") + "\tab:Z:x"]
+
+
+def apiseq_first_ops(l):
+    """the calls which change the line l: one per tag (delete; set to None), per positional field (set to a string),
+    renames, disconnect (public attributes of l only)"""
+    ops = []
+    for t in list(l.tagnames):
+        ops.append(["delete", t]); ops.append(["unset", t])
+    for j, f in enumerate(list(l.positional_fieldnames)):
+        ops.append(["set", f, APISEQ_VALUES[j % len(APISEQ_VALUES)]])
+        ops.append(["set", f, APISEQ_VALUES[(j + 4) % len(APISEQ_VALUES)]])
+    for n in ("n1", "s2", "", "*", "a b"):
+        ops.append(["rename", n])
+    ops.append(["disconnect"]); ops.append(["rm_line"])
+    return ops
+
+
+APISEQ_SECOND = [["rm_line"], ["disconnect"], ["connect"], ["rm_old_name"], ["validate"], ["rename", "n2"], ["delete_first_tag"],
+                 ["set", "xx", "2"]]
+
+
+def apiseq_call(P, g, l, op, oldname, ctx, shown):
+    who = "%s-line" % l.record_type
+    k = op[0]
+    if k == "delete":
+        P.call("%s.delete(%r) (%s)" % (who, op[1], ctx), shown, l.delete, op[1])
+    elif k == "unset":
+        P.call("%s.set(%r, None) (%s)" % (who, op[1], ctx), shown, l.set, op[1], None)
+    elif k == "set":
+        P.call("%s.set(%r, %r) (%s)" % (who, op[1], op[2], ctx), shown, l.set, op[1], op[2])
+    elif k == "rename":
+        P.call("%s.name = %r (%s)" % (who, op[1], ctx), shown, setattr, l, "name", op[1])
+    elif k == "disconnect":
+        P.call("%s.disconnect() (%s)" % (who, ctx), shown, l.disconnect)
+    elif k == "connect":
+        P.call("%s.connect(gfa) (%s)" % (who, ctx), shown, l.connect, g)
+    elif k == "rm_line":
+        P.call("Gfa.rm(%s) (%s)" % (who, ctx), shown, g.rm, l)
+    elif k == "rm_old_name":
+        P.call("Gfa.rm(%r) (%s)" % (oldname, ctx), shown, g.rm, oldname)
+    elif k == "validate":
+        P.call("%s.validate() (%s)" % (who, ctx), shown, l.validate)
+    elif k == "delete_first_tag":
+        st, tn = P.call("%s.tagnames" % who, shown, lambda: list(l.tagnames))
+        if st == "ok" and tn:
+            P.call("%s.delete(%r) (%s)" % (who, tn[0], ctx), shown, l.delete, tn[0])
+    P.call("str(%s) after %s (%s)" % (who, k, ctx), shown, str, l)
+
+
+def probe_apiseq(P, ver, dep, vlevel):
+    """every two-call sequence (a call which changes a line; a second call on the same line object or on the graph)
+    on the segment s1 and on its dependant, each on a freshly built graph"""
+    gfapy = lib.import_gfapy()
+    lines = apiseq_doc(ver, dep)
+    ctx = "vlevel=%d %s" % (vlevel, ver)
+
+    def fresh(which):
+        st, g = P.call("Gfa(list, %s)" % ctx, lines, gfapy.Gfa, list(lines), vlevel=vlevel, version=ver)
+        if st != "ok":
+            return None, None
+        st, ls = P.call("Gfa.lines", lines, lambda: [l for l in g.lines if str(l) == lines[which]])
+        if st != "ok" or not ls:
+            return None, None
+        return g, ls[0]
+    for which, oldname in ((0, "s1"), (2, "d1")):
+        g, l = fresh(which)
+        if g is None:
+            return
+        first = apiseq_first_ops(l)
+        for op1 in first:
+            for op2 in APISEQ_SECOND:
+                g, l = fresh(which)
+                if g is None:
+                    return
+                shown = {"lines": lines, "line": lines[which], "calls": [op1, op2]}
+                apiseq_call(P, g, l, op1, oldname, ctx, shown)
+                apiseq_call(P, g, l, op2, oldname, ctx, shown)
+                P.call("str(Gfa) after the two calls (%s)" % ctx, shown, str, g)
+                P.call("Gfa.validate() after the two calls (%s)" % ctx, shown, g.validate)
+
+
+def graph_field(l, fsel):
+    """the field name a step's field selector stands for, on line l (public attributes only)"""
+    if fsel[0] == "s":
+        return fsel[1]
+    names = list(l.positional_fieldnames) + list(l.tagnames)
+    return names[fsel[1] % len(names)] if names else "xx"
+
+
+def graph_step(P, g, lines, step, ctx):
+    op = step[0]
+    if op == "rm_name":
+        P.call("Gfa.rm(%s) (%s)" % (short(step[1])[:30], ctx), step, g.rm, step[1])
+    elif op == "lookup":
+        P.call("Gfa.line(%s) (%s)" % (short(step[1])[:30], ctx), step, g.line, step[1])
+        P.call("Gfa.try_get_line(%s) (%s)" % (short(step[1])[:30], ctx), step, g.try_get_line, step[1])
+    elif op == "gstr":
+        P.call("str(Gfa) (%s)" % ctx, step, str, g)
+    elif op == "gvalidate":
+        P.call("Gfa.validate() (%s)" % ctx, step, g.validate)
+    elif op == "add":
+        P.call("Gfa.add_line (%s)" % ctx, step, g.add_line, step[1])
+    elif lines:
+        l = lines[step[1] % len(lines)]
+        st, rt = P.call("line.record_type", step, lambda: l.record_type)
+        who = "%s-line" % (rt if st == "ok" else "?")
+        if op == "rm_line":
+            P.call("Gfa.rm(%s) (%s)" % (who, ctx), step, g.rm, l)
+        elif op == "disconnect":
+            P.call("%s.disconnect() (%s)" % (who, ctx), step, l.disconnect)
+        elif op == "connect":
+            P.call("%s.connect(gfa) (%s)" % (who, ctx), step, l.connect, g)
+        elif op == "validate":
+            P.call("%s.validate() (%s)" % (who, ctx), step, l.validate)
+        elif op == "str":
+            P.call("str(%s) (%s)" % (who, ctx), step, str, l)
+        elif op == "rename":
+            P.call("%s.name = %s (%s)" % (who, short(step[2])[:30], ctx), step, setattr, l, "name", step[2])
+        else:
+            st, f = P.call("%s.positional_fieldnames+tagnames" % who, step, graph_field, l, step[2])
+            if st != "ok":
+                return
+            if op == "set":
+                P.call("%s.set(%r, %s) (%s)" % (who, f, short(step[3])[:30], ctx), step, l.set, f, step[3])
+            elif op == "unset":
+                # the documented way to remove a tag: set it to None (positional fields: not a string-taking call, skipped)
+                st, tn = P.call("%s.tagnames" % who, step, lambda: list(l.tagnames))
+                if st == "ok" and f in tn:
+                    P.call("%s.set(%r, None) (%s)" % (who, f, ctx), step, l.set, f, None)
+            elif op == "delete":
+                P.call("%s.delete(%r) (%s)" % (who, f, ctx), step, l.delete, f)
+            elif op == "get":
+                P.call("%s.get(%r) (%s)" % (who, f, ctx), step, l.get, f)
+                P.call("%s.field_to_s(%r) (%s)" % (who, f, ctx), step, l.field_to_s, f)
+        P.call("str(%s) after %s (%s)" % (who, op, ctx), step, str, l)
+
+
+def probe_graph(P, case):
+    """the lines of a small graph are added, the line objects are taken (Gfa.lines) and the steps of the script are
+    called on the graph and on those objects -- also on objects which an earlier step has removed or renamed"""
+    gfapy = lib.import_gfapy()
+    v = case["vlevel"]; ver = case["version"]
+    ctx = "vlevel=%d version=%s how=%s" % (v, ver, case["how"])
+    if case["how"] == "list":
+        st, g = P.call("Gfa(list, %s)" % ctx, case["lines"], gfapy.Gfa, list(case["lines"]), vlevel=v, version=ver)
+        if st != "ok":
+            return
+    else:
+        st, g = P.call("Gfa(%s)" % ctx, case["lines"], gfapy.Gfa, vlevel=v, version=ver)
+        if st != "ok":
+            return
+        for ln in case["lines"]:
+            P.call("add_line (%s)" % ctx, ln, g.add_line, ln)
+        P.call("process_line_queue (%s)" % ctx, case["lines"], g.process_line_queue)
+    st, lines = P.call("Gfa.lines (%s)" % ctx, case["lines"], lambda: list(g.lines))
+    if st != "ok":
+        return
+    shown = {"lines": case["lines"], "steps": case["steps"]}
+    for k, step in enumerate(case["steps"]):
+        graph_step(P, g, lines, step, ctx + " step %d" % k)
+    P.call("str(Gfa) at the end of the script (%s)" % ctx, shown, str, g)
+    P.call("Gfa.validate() at the end of the script (%s)" % ctx, shown, g.validate)
+    for l in lines:
+        P.call("str(line) at the end of the script (%s)" % ctx, shown, str, l)
+    st, now = P.call("Gfa.lines at the end of the script (%s)" % ctx, shown, lambda: list(g.lines))
+    if st == "ok":
+        for l in now[:40]:
+            P.call("line.validate() at the end of the script (%s)" % ctx, shown, l.validate)
 
 
 def build_api_doc(P, d, vlevel):
@@ -474,14 +1104,19 @@ def oracle(case):
     elif k == "apix":
         probe_apix(P, case["doc"], v, case["call"])
     elif k == "rawfile":
-        gfapy = lib.import_gfapy()
-        fd, path = tempfile.mkstemp(prefix="c07_", suffix=".gfa", dir="/tmp")
-        try:
-            with os.fdopen(fd, "wb") as f:
-                f.write(bytes.fromhex(case["hex"]))
-            P.call("Gfa.from_file(non-UTF-8 bytes)", case["hex"], gfapy.Gfa.from_file, path, vlevel=v)
-        finally:
-            os.unlink(path)
+        probe_raw(P, bytes.fromhex(case["hex"]), v, case.get("version"))
+    elif k == "rawx":
+        probe_rawx(P, case["doc"], case["where"], v)
+    elif k == "oddname":
+        probe_oddname(P, case["tpl"], v)
+    elif k == "deps":
+        probe_deps(P, case["version"], case["first"], v)
+    elif k == "plist":
+        probe_plist(P, case["nseg"], v)
+    elif k == "apiseq":
+        probe_apiseq(P, case["version"], case["dep"], v)
+    elif k == "graph":
+        probe_graph(P, case)
     elif k == "line":
         probe_line(P, case["text"], v, case["version"])
     elif k == "doc":
@@ -506,9 +1141,38 @@ def nontrivial(case):
     return True
 
 
+def shrink(case, failure, max_runs=200):
+    """graph scripts: greedy removal of steps, then of lines, keeping the failure signature"""
+    if case.get("kind") != "graph":
+        return case
+    sig = signature(case, failure)
+    runs = [0]
+
+    def still(c):
+        runs[0] += 1
+        try:
+            return any(signature(c, f) == sig for f in oracle(c))
+        except Exception:
+            return False
+    cur = dict(case)
+    for key in ("steps", "lines", "steps"):
+        progress = True
+        while progress and runs[0] < max_runs:
+            progress = False
+            for i in range(len(cur[key]) - 1, -1, -1):
+                if runs[0] >= max_runs:
+                    break
+                cand = dict(cur)
+                cand[key] = cur[key][:i] + cur[key][i + 1:]
+                if still(cand):
+                    cur = cand
+                    progress = True
+    return cur
+
+
 def tags(case):
     t = [case["kind"], "v%d" % case["vlevel"]]
-    for k in ("version", "dialect", "how", "op", "shape", "call"):
+    for k in ("version", "dialect", "how", "op", "shape", "call", "where", "first", "dep"):
         if k in case:
             t.append("%s=%s" % (k, case[k]))
     return t
